@@ -42,10 +42,26 @@ def run(tier, replay=None):
             run.states += tr.distinct
             run.transitions += tr.generated
         run.traces += info["runs"]
+    # the public ConsoleWriter without lock(): pieces alternate freely (Locked = FALSE), each call's bytes - text or
+    # escape sequence - arrive as one unit
+    tpu = os.path.join(os.path.dirname(tp), "unlocked_%s.ndjson" % tier)
+    pu = C.run_harness(["constream", tpu, "4", "30", str(max(1, rounds // 2)), "unlocked"], timeout=900)
+    infou = json.loads(pu.stdout.strip().splitlines()[-1])
+    for f in infou["failures"]:
+        run.mismatch({"kind": "unlocked stream: " + f["what"], "target": f["target"], "tty": f["tty"]}, f)
+    if not infou["failures"]:
+        tr = C.validate_trace(run, "Trace_ConsoleStream", "Trace_ConsoleStream_unlocked.cfg", "c18_unlocked", tpu, timeout=900,
+                              key={"kind": "unlocked stream trace rejected"}, linear=False)
+        if tr is not None:
+            run.states += tr.distinct
+            run.transitions += tr.generated
+        run.traces += infou["runs"]
+    if infou["coloured_runs"] != infou["runs"]:
+        raise C.ToolError("unlocked console stream runs without colour: %s" % infou)
     if info["coloured_runs"] == 0 or info["runs"] != rounds * 4:
         raise C.ToolError("console stream runs: %s" % info)
     run.extra = {"stream_model_states": cs.distinct, "stream_child_runs": info["runs"], "stream_events": info["events"],
-                 "stream_coloured_runs": info["coloured_runs"]}
+                 "stream_coloured_runs": info["coloured_runs"], "unlocked_stream_runs": infou["runs"], "unlocked_stream_events": infou["events"]}
     rows = [c for c in cases if c["kind"] == "row"]
     run.evaluations = len(cases)
     run.nontrivial = sum(1 for c in rows if c["row"]["tty_only"] or c["coloured"]) + sum(1 for c in cases if c["kind"] == "style")
